@@ -56,7 +56,7 @@ Lemma step_kept_same i i' o : Rc i i' -> (forall e, o <> OpB e) ->
   (snd (step0 i o) = false -> Rc (snd (fst (step0 i o))) (snd (fst (step0 i' o)))).
 Proof.
   intros HR Hnb. pose proof HR as (E1 & E2 & HRst & N1 & N2). pose proof HRst as [c [n E3]].
-  destruct o as [e|e| |ep raw|id|f|a b]; cbn [step].
+  destruct o as [e|e| |ep raw|id|f|a b|]; cbn [step].
   - rewrite <- (R_guard i i' e true HR). destruct (guard i e true) as [w|]; cbn [fst snd].
     { repeat split; auto. }
     rewrite E1.
@@ -102,13 +102,14 @@ Proof.
     destruct (fc_cached 0 (i_st i) a b) as [r st1]. destruct (fc_cached 0 (i_st i') a b) as [r' st1'].
     destruct A as (A1 & A2 & _). cbn [fst snd] in *. subst r'. split; [reflexivity|]. split; [reflexivity|].
     intros _. unfold Rc. cbn [i_st i_es i_proc]. repeat split; auto.
+  - cbn [fst snd]. rewrite E3. cbn [l_vals set_fcc set_ctr]. split; [reflexivity|]. split; [reflexivity|]. intros _. exact HR.
 Qed.
 
 Lemma step_dropped i i' o : Rc i i' -> dropped i o (fst (fst (step0 i o))) = true -> snd (step0 i o) = false ->
   Rc (snd (fst (step0 i o))) i'.
 Proof.
   intros HR Hd Ha. pose proof HR as (E1 & E2 & HRst & N1 & N2). pose proof HRst as [c [n E3]].
-  destruct o as [e|e| |ep raw|id|f|a b]; cbn [step dropped] in *; try discriminate.
+  destruct o as [e|e| |ep raw|id|f|a b|]; cbn [step dropped] in *; try discriminate.
   - destruct (guard i e true) as [w|] eqn:G; cbn [fst snd] in *; [discriminate|].
     pose proof (process0 (policy_fn pol) (aput (a_id e) e (i_es i)) (i_st i) e N1) as P1.
     destruct (process 0 (policy_fn pol) (aput (a_id e) e (i_es i)) (i_st i) e) as [[r bl] st1] eqn:EP.
